@@ -59,6 +59,22 @@ fn memcap_skip(parts: &[&Vec<u8>]) -> bool {
 
 /// count results at the edges of the number encoding: OP_SIZE of items of boundary lengths and OP_DEPTH on boundary depths
 /// (a count whose top magnitude byte is exactly 0x80 needs a separate sign byte: 128, 32768, ...)
+/// integer literals of the interpreter sources (and their neighbours) as operands of the index / count / size opcodes, as
+/// item lengths and as stack depths
+fn harvested(out: &mut Vec<String>) {
+    let vals = crate::harvest::ints(&["script/interpreter.rs", "script/stack.rs", "script/mod.rs"], 1 << 32);
+    for v in vals.iter() {
+        let n = enc_num(*v as i128);
+        for op in [0x79u8, 0x7a, 0x7f, 0x98, 0x99, 0x8b, 0x8c, 0x8f, 0x91] {           // PICK ROLL SPLIT LSHIFT RSHIFT 1ADD 1SUB NEGATE NOT
+            let mut sc = vec![0x51, 0x52, 0x03, 0xaa, 0xbb, 0xcc];
+            push_with(&mut sc, &n, 0); sc.push(op);
+            out.push(eval_req("c01", &sc, (*v % 2) as u32, None, None, "~", "~", "t:t:t"));
+        }
+        if *v <= 70_000 { let mut sc = vec![]; push_with(&mut sc, &vec![0x33u8; *v as usize], 0); sc.push(0x82); out.push(eval_req("c01", &sc, 0, None, None, "~", "~", "t:t:t")); }
+        if *v <= 1_100 { let mut sc: Vec<u8> = (0..*v).map(|i| 0x51 + (i % 16) as u8).collect(); sc.push(0x74); out.push(eval_req("c01", &sc, 0, None, None, "~", "~", "t:t:t")); }
+    }
+}
+
 fn count_edges(out: &mut Vec<String>) {
     for len in [0usize, 1, 75, 76, 127, 128, 129, 255, 256, 257, 32767, 32768, 32769, 33023, 33024, 65535, 65536] {
         let mut sc = vec![];
@@ -78,6 +94,7 @@ fn count_edges(out: &mut Vec<String>) {
 
 pub fn gen(tier: &str, rng: &mut Rng, out: &mut Vec<String>) {
     count_edges(out);
+    harvested(out);
     let thorough = tier == "thorough";
     // (a) grammar scripts, both rule sets
     let n = if thorough { 200_000 } else { 12_000 };
